@@ -340,7 +340,7 @@ func c15(tier string, args []string) int {
 			if r.TimeUp() {
 				break
 			}
-			e, _ := runC14(r, rec3, sc, bound)
+			e, _ := runC14(r, rec3, sc, bound, false)
 			scheds += e
 		}
 		r.Set("concurrent_duplicate_submission_scenarios", len(scs))
